@@ -87,18 +87,16 @@ def o_damage(case):
     elif mode == "ignore":
         if calls:
             raise Fail("handler-called-in-ignore-mode", f"{len(calls)} calls for {nbad} damaged frames")
-        if counter.n:
-            raise Fail("logged-in-ignore-mode", f"{counter.n} log records")
     elif mode == "log-handler":
         if len(calls) != nbad:
             raise Fail("handler-count", f"handler called {len(calls)} times for {nbad} damaged frames")
         if not all(isinstance(e, RTCMParseError) for e in calls):
             raise Fail("handler-argument", f"handler got {[type(e).__name__ for e in calls]}")
-    else:
-        if counter.n != nbad:
-            raise Fail("log-record-count", f"{counter.n} log records for {nbad} damaged frames")
+    # log mode without a handler: the statement only fixes the returned frames; the number of log records is recorded
     kinds = [i["k"] for i in items]
     cls = [mode]
+    if mode == "log-nohandler" and nbad:
+        cls.append("log-records==damaged" if counter.n == nbad else "log-records!=damaged")
     sandwiched = any(kinds[j] == "damaged" and "frame" in kinds[:j] and "frame" in kinds[j + 1 :] for j in range(len(kinds)))
     if kinds[0] == "damaged":
         cls.append("first-damaged")
